@@ -487,19 +487,27 @@ func c17R5(p *core.Prog, r *core.Report, pi *pqInfo) {
 	}
 	fname := p.FuncName(fn)
 	var blocking, trying []*ssa.Call
-	core.Calls(fn, func(c ssa.CallInstruction) {
-		g := core.Callee(c)
-		call, ok := c.(*ssa.Call)
-		if g == nil || !ok || g.Pkg() == nil || g.Pkg().Path() != modPath(pqRel) {
-			return
-		}
-		switch g.Name() {
-		case "Acquire":
-			blocking = append(blocking, call)
-		case "TryAcquire":
-			trying = append(trying, call)
-		}
-	})
+	// one round (blocking acquire, try-acquires, back-off) may be an unexported helper called from the retry loop
+	unit := fn
+	for _, f := range sortedFuncs(core.HelpersExcept(fn, 2, func(h *ssa.Function) bool {
+		return h.Name() == "Acquire" || h.Name() == "TryAcquire" || h.Name() == "release"
+	})) {
+		f := f
+		core.Calls(f, func(c ssa.CallInstruction) {
+			g := core.Callee(c)
+			call, ok := c.(*ssa.Call)
+			if g == nil || !ok || g.Pkg() == nil || g.Pkg().Path() != modPath(pqRel) {
+				return
+			}
+			switch g.Name() {
+			case "Acquire":
+				blocking = append(blocking, call)
+				unit = f
+			case "TryAcquire":
+				trying = append(trying, call)
+			}
+		})
+	}
 	r.Check(len(blocking) == 1, rule, fname, "one blocking acquisition per round", p.Pos(fn.Pos()),
 		fmt.Sprintf("%d call sites of the blocking Acquire (blocking on a second queue while holding a slot of the first is the hold-and-wait that deadlocks overlapping requests)", len(blocking)))
 	r.Check(len(trying) >= 1, rule, fname, "others are try-acquired", p.Pos(fn.Pos()), fmt.Sprintf("%d TryAcquire call sites", len(trying)))
@@ -532,16 +540,28 @@ func c17R5(p *core.Prog, r *core.Report, pi *pqInfo) {
 	released := false
 	// calls on the failure path: those inside the retry loop (the natural loop containing the blocking call)
 	var loop *core.Loop
-	for _, l := range core.Loops(fn) {
+	for _, l := range core.Loops(unit) {
 		if l.Blocks[b.Block()] && (loop == nil || len(l.Blocks) > len(loop.Blocks)) {
 			loop = l
 		}
 	}
-	if loop == nil {
+	if loop == nil && unit == fn {
 		r.Undecided(rule, fname, "blocking slot released on retry", p.Pos(b.Pos()), "the blocking Acquire is not inside a retry loop")
 		return
 	}
-	loop.Instrs(func(in ssa.Instruction) {
+	// the region of one round: the retry loop, or the whole helper when a round is a function of its own
+	region := func(f func(ssa.Instruction)) {
+		if loop != nil {
+			loop.Instrs(f)
+			return
+		}
+		for _, blk := range unit.Blocks {
+			for _, in := range blk.Instrs {
+				f(in)
+			}
+		}
+	}
+	region(func(in ssa.Instruction) {
 		c, ok := in.(*ssa.Call)
 		if !ok || c.Call.IsInvoke() || c.Call.StaticCallee() != nil {
 			return
@@ -559,8 +579,8 @@ func c17R5(p *core.Prog, r *core.Report, pi *pqInfo) {
 		}
 	})
 	// alternative: a range loop over the whole list inside the retry loop
-	for _, l := range core.Loops(fn) {
-		if l != loop && loop.Blocks[l.Header] && strings.HasPrefix(l.Header.Comment, "rangeindex") {
+	for _, l := range core.Loops(unit) {
+		if l != loop && (loop == nil || loop.Blocks[l.Header]) && strings.HasPrefix(l.Header.Comment, "rangeindex") {
 			if rv, ok := l.IsRange(); ok && sameValue(rv, list) {
 				released = true
 			}
